@@ -59,8 +59,17 @@ def mono(rng, n, lo=0., hi=10.):
 
 def gen(rng, idx, tier, seed):
     mode = ['weights', 'sigma', 'weights', 'filedim', 'sigmafile',
-            'interpvars'][idx % 6]
+            'interpvars', 'filedimnd'][idx % 7]
     spec = {'mode': mode, 'seed': int(rng.integers(1 << 30))}
+    if mode == 'filedimnd':
+        # N-dimensional coordinate variables: per-column source and target
+        rank = int(rng.integers(2, 5))
+        spec.update(rank=rank, axis=int(rng.integers(0, rank)),
+                    n=int(rng.integers(2, 7)), m=int(rng.integers(1, 7)),
+                    nsrc=int(rng.integers(1, 4)),
+                    kind=str(rng.choice(['inside', 'inside', 'same',
+                                         'interleaved'])))
+        return spec
     if mode in ('weights', 'filedim', 'interpvars'):
         n = int(rng.integers(2, 11)) if rng.random() > 0.03 else 1
         xs = mono(rng, n, -5, 20)
@@ -120,7 +129,82 @@ def gen(rng, idx, tier, seed):
                     kind=kind)
         if mode == 'sigmafile':
             spec['interptype'] = str(rng.choice(['linear', 'conserve']))
+            # a requested model top below the file's (the rescaled source
+            # grid then covers the whole target grid)
+            spec['dvgtop'] = float(rng.choice([0, 0, 0, 1000., 2500., 5000.]))
     return spec
+
+
+def run_filedimnd(spec, res, pnc):
+    """interpDimension with N-D coordinate variables: every column has
+    its own source coordinate (a few distinct profiles, so neighbouring
+    columns share one) and its own target coordinate"""
+    rng = np.random.default_rng([spec['seed'], 37])
+    rank, ax, n = spec['rank'], spec['axis'], spec['n']
+    shape = [int(rng.integers(1, 4)) for _ in range(rank)]
+    shape[ax] = n
+    dims = ['d%d' % i for i in range(rank)]
+    dims[ax] = 'z'
+    cols = [s for i, s in enumerate(shape) if i != ax]
+    ncol = int(np.prod(cols))
+    profiles = [mono(rng, n, -5, 20) for _ in range(spec['nsrc'])]
+    # runs of equal source profiles in column order
+    which = np.sort(rng.integers(0, len(profiles), ncol))
+    src = np.stack([profiles[w] for w in which], 0)          # (ncol, n)
+    m = n if spec['kind'] == 'same' else (
+        n - 1 if spec['kind'] == 'interleaved' else spec['m'])
+    tgt = np.empty((ncol, m))
+    for c in range(ncol):
+        if spec['kind'] == 'same':
+            tgt[c] = src[c]
+        elif spec['kind'] == 'interleaved':
+            tgt[c] = (src[c][:-1] + src[c][1:]) / 2.
+        else:
+            tgt[c] = mono(rng, m, src[c].min(), src[c].max())
+
+    def to_nd(a2):
+        a = a2.reshape(cols + [a2.shape[1]])
+        return np.moveaxis(a, -1, ax)
+    srcnd, tgtnd = to_nd(src), to_nd(tgt)
+    sl = to_nd(rng.uniform(-2, 2, (ncol, 1)))
+    ic = to_nd(rng.uniform(-5, 5, (ncol, 1)))
+    f = pnc.PseudoNetCDFFile()
+    for d, k in zip(dims, shape):
+        f.createDimension(d, k)
+    f.createVariable('z', 'd', tuple(dims))[...] = srcnd
+    f.createVariable('lin', 'd', tuple(dims))[...] = sl * srcnd + ic
+    g = pnc.PseudoNetCDFFile()
+    for d, k in zip(dims, shape):
+        g.createDimension(d, m if d == 'z' else k)
+    nz = g.createVariable('z', 'd', tuple(dims))
+    nz[...] = tgtnd
+    problems = []
+    try:
+        out = f.interpDimension('z', nz)
+        res.hook('interpDimension.return')
+        got = np.asarray(out.variables['lin'][...], 'f8')
+        exp = sl * tgtnd + ic
+        tol = 1e-8 * (1 + np.abs(exp).max())
+        if got.shape != exp.shape:
+            problems.append('N-D interpDimension: lin has shape %s expected '
+                            '%s' % (got.shape, exp.shape))
+        elif np.abs(got - exp).max() > tol:
+            j = np.unravel_index(np.argmax(np.abs(got - exp)), exp.shape)
+            problems.append('N-D interpDimension along axis %d of rank %d '
+                            '(%d source profiles over %d columns): linear '
+                            'profile not reproduced at %s: got %r expected %r'
+                            % (ax, rank, len(profiles), ncol, j, got[j],
+                               exp[j]))
+        gz = np.asarray(out.variables['z'][...], 'f8')
+        if gz.shape != tgtnd.shape or np.abs(gz - tgtnd).max() > 1e-8 * (
+                1 + np.abs(tgtnd).max()):
+            problems.append('N-D interpDimension: coordinate z after '
+                            'interpolation is not the target coordinate')
+    except LawBroken:
+        raise
+    except Exception as e:
+        problems.append('N-D interpDimension raised %r' % (e,))
+    return problems
 
 
 # ---------------------------------------------------------------------------
@@ -362,6 +446,10 @@ def run(spec, res):
             problems.append('%s raised %r' % (mode, e))
         facets += ['rank:%d' % rank, 'axis:%d' % ax]
         nontriv = not (xs.shape == nxs.shape and np.array_equal(xs, nxs))
+    elif mode == 'filedimnd':
+        problems += run_filedimnd(spec, res, pnc)
+        facets += ['rank:%d' % spec['rank'], 'axis:%d' % spec['axis']]
+        nontriv = spec['kind'] != 'same'
     else:   # sigmafile
         a, b = np.array(spec['frm'], 'f4'), np.array(spec['to'], 'f4')
         rng = np.random.default_rng([spec['seed'], 33])
@@ -374,8 +462,14 @@ def run(spec, res):
             f.variables[k][...] = rng.uniform(1, 10, f.variables[k].shape)
         const = 3.25
         f.variables[ios['names'][0]][...] = const
+        dvg = float(spec.get('dvgtop', 0))
         try:
-            out = f.interpSigma(b, interptype=spec['interptype'])
+            if dvg:
+                out = f.interpSigma(b, vgtop=float(f.VGTOP) + dvg,
+                                    interptype=spec['interptype'])
+                facets.append('vgtop:other')
+            else:
+                out = f.interpSigma(b, interptype=spec['interptype'])
             res.hook('interpSigma.return')
             if len(out.dimensions['LAY']) != b.size - 1:
                 problems.append('LAY has length %d, expected %d'
@@ -384,7 +478,7 @@ def run(spec, res):
             if np.abs(c0 - const).max() > 1e-5 * const:
                 problems.append('%s: constant field became %r..%r'
                                 % (spec['interptype'], c0.min(), c0.max()))
-            if spec['interptype'] == 'conserve':
+            if spec['interptype'] == 'conserve' and not dvg:
                 dpi = -np.diff(a.astype('f8'))
                 dpo = -np.diff(b.astype('f8'))
                 for k in ios['names'][1:]:
